@@ -414,7 +414,6 @@ func vC19ForwardedOK(p *ecs.Policy, in, out *dns.EDNS0_SUBNET) string {
 	return ""
 }
 
-
 type vC19Writer struct {
 	proto  string
 	remote net.IP
@@ -905,6 +904,7 @@ func TestVerifC19Cache(t *testing.T) {
 	n := vC19EnvInt("VERIF_N", 300)
 	vC19LeakReplay(tr)
 	vC19OverlongReplay(tr)
+	vC19CorpusReplay(t, tr)
 	for c := 0; c < n; c++ {
 		if c%4 == 3 {
 			vC19DenialCase(tr, r)
@@ -914,7 +914,110 @@ func TestVerifC19Cache(t *testing.T) {
 	}
 }
 
-func fkeyOf(unusableScope bool) string {
+// ---- corpus: fixed histories from $VERIF_CORPUS/cache_histories.json, replayed first on every run (the
+// minimal inputs of the findings and of the seeded changes this check caught).  Addresses are hex byte
+// strings so that 4-byte, 16-byte and IPv4-mapped forms can be told apart.
+type vC19CorpusECS struct {
+	Family uint16 `json:"family"`
+	Mask   uint8  `json:"mask"`
+	Scope  uint8  `json:"scope"`
+	Addr   string `json:"addr"`
+}
+
+type vC19CorpusResp struct {
+	TTL        int            `json:"ttl"`
+	Class      int            `json:"class"`
+	Opt        bool           `json:"opt"`
+	OnlyIfSeen bool           `json:"only_if_seen"`
+	ECS        *vC19CorpusECS `json:"ecs"`
+}
+
+type vC19CorpusOp struct {
+	Remote string         `json:"remote"`
+	Opt    bool           `json:"opt"`
+	ECS    *vC19CorpusECS `json:"ecs"`
+	CD     bool           `json:"cd"`
+	Aged   bool           `json:"aged"`
+	Wire   bool           `json:"wire"`
+	Qi     int            `json:"qi"`
+	Up     vC19CorpusResp `json:"up"`
+	Rf     vC19CorpusResp `json:"rf"`
+}
+
+type vC19CorpusHistory struct {
+	Name string `json:"name"`
+	Cfg  struct {
+		Enabled  bool     `json:"enabled"`
+		F4       uint8    `json:"f4"`
+		F6       uint8    `json:"f6"`
+		M4       uint8    `json:"m4"`
+		M6       uint8    `json:"m6"`
+		Nets     []string `json:"nets"`
+		EcsMaxS  int      `json:"ecs_max_s"`
+		Prefetch bool     `json:"prefetch"`
+	} `json:"cfg"`
+	Ops []vC19CorpusOp `json:"ops"`
+}
+
+func vC19CorpusBytes(t *testing.T, s string) []byte {
+	b := make([]byte, len(s)/2)
+	for i := range b {
+		n, err := strconv.ParseUint(s[2*i:2*i+2], 16, 8)
+		if err != nil {
+			t.Fatalf("corpus: bad hex %q", s)
+		}
+		b[i] = byte(n)
+	}
+	return b
+}
+
+func vC19CorpusOption(t *testing.T, e *vC19CorpusECS) *dns.EDNS0_SUBNET {
+	return &dns.EDNS0_SUBNET{Code: dns.EDNS0SUBNET, Family: e.Family, SourceNetmask: e.Mask, SourceScope: e.Scope, Address: net.IP(vC19CorpusBytes(t, e.Addr))}
+}
+
+func vC19CorpusGen(t *testing.T, rs vC19CorpusResp) func(*dns.EDNS0_SUBNET) ([]dns.EDNS0, bool) {
+	return func(seen *dns.EDNS0_SUBNET) ([]dns.EDNS0, bool) {
+		if !rs.Opt || (rs.OnlyIfSeen && seen == nil) {
+			return nil, false
+		}
+		if rs.ECS == nil {
+			return nil, true
+		}
+		return []dns.EDNS0{vC19CorpusOption(t, rs.ECS)}, true
+	}
+}
+
+func vC19CorpusReplay(t *testing.T, tr *vC19Trace) {
+	dir := os.Getenv("VERIF_CORPUS")
+	if dir == "" {
+		return
+	}
+	raw, err := os.ReadFile(dir + "/cache_histories.json")
+	if err != nil {
+		return // no corpus: nothing to replay
+	}
+	var hs []vC19CorpusHistory
+	if err := json.Unmarshal(raw, &hs); err != nil {
+		t.Fatalf("corpus: %v", err)
+	}
+	for _, h := range hs {
+		b := vC19BuildArgs{enabled: h.Cfg.Enabled, f4: h.Cfg.F4, f6: h.Cfg.F6, m4: h.Cfg.M4, m6: h.Cfg.M6, nets: h.Cfg.Nets}
+		var plan []vC19Planned
+		for _, op := range h.Ops {
+			cl := vC19Client{remote: net.IP(vC19CorpusBytes(t, op.Remote)), hasOPT: op.Opt}
+			if op.ECS != nil {
+				cl.opts = []dns.EDNS0{vC19CorpusOption(t, op.ECS)}
+			}
+			plan = append(plan, vC19Planned{cl: cl, qi: op.Qi, cd: op.CD, aged: op.Aged, wire: op.Wire,
+				upTTL: op.Up.TTL, rfTTL: op.Rf.TTL, upClass: op.Up.Class, rfClass: op.Rf.Class,
+				upGen: vC19CorpusGen(t, op.Up), rfGen: vC19CorpusGen(t, op.Rf)})
+		}
+		vC19ExecHistory(tr, b, time.Duration(h.Cfg.EcsMaxS)*time.Second, h.Cfg.Prefetch, false,
+			func(*ecs.Policy, [2]int) []vC19Planned { return plan }, "cache-corpus-"+h.Name)
+	}
+}
+
+func vC19FkeyOf(unusableScope bool) string {
 	if unusableScope {
 		return "unusable-scope-filed-shared"
 	}
@@ -1338,7 +1441,7 @@ func vC19ExecHistory(tr *vC19Trace, b vC19BuildArgs, ecsMax time.Duration, prefe
 	}
 	tr.emit(map[string]any{"k": k,
 		"coq":     fmt.Sprintf("CaseCache (mk_ccfg %s %d%%Z %s) [%s]", b.coq(), int64(ecsMax), vC19Bool(prefetch), strings.Join(ops, "; ")),
-		"go_fail": goFail, "fkey": fkeyOf(unusable && strings.Contains(goFail, "SCOPE") || unusable && strings.Contains(goFail, "stored under scope")), "nontrivial": scopedStores > 0 || sharedHits > 0,
+		"go_fail": goFail, "fkey": vC19FkeyOf(unusable && strings.Contains(goFail, "SCOPE") || unusable && strings.Contains(goFail, "stored under scope")), "nontrivial": scopedStores > 0 || sharedHits > 0,
 		"desc": map[string]any{"ecs_cfg": fmt.Sprintf("%+v", b), "cache_limit_ttl": ecsMax.String(), "prefetch": prefetch, "ops": desc}})
 }
 
